@@ -34,6 +34,24 @@ BUILT = {
  "C12": ("model-based (stateful) property-based testing: generated update histories against a model (current vector + A = B_ref/(sk+e)), probes for out-of-range positions and wrong old values at every step",
          "Hundreds (quick) / thousands (thorough) of histories with up to 12 / 32 updates incl. sweeps over every position and vectors of 24 / 33 / 64 messages.", T, "DESIGN.md §6 C12"),
 }
+
+TC = "Trusts rug/GMP integer arithmetic; CL1024-size moduli in quick, CL2048/CL3072 (keys assembled from pre-computed safe primes) in thorough only. Exploration finds counterexamples, it does not establish absence."
+BUILT.update({
+ "C13": ("property-based testing + attacker programs: generated keys / bases / attribute vectors, all 2^n selective-disclosure sets, forgeries derivable without the secret key (shift by k*e, trivial exponent), single-field edits",
+         "Hundreds of generated vectors per run over a pool of generate()d and fixture-prime keys; every negative family of the quantifier enumerated per case; e checked prime (own Miller-Rabin + GMP), exact lengths.", TC, "DESIGN.md §6 C13"),
+ "C14": ("property-based testing: every non-empty hidden set for n <= 3 (quick) / 5 (thorough), with and without trusted-party commitment; gating checked on verify_proof and blind_sign; integer-leaf perturbation of the serialised proof",
+         "All hidden sets enumerated; mismatch families (other attributes / hidden set / bases / key / trusted commitment) and coverage-balanced field edits (+1, -1, 0, sibling) must be refused by verifier and issuer.", TC, "DESIGN.md §6 C14"),
+ "C15": ("property-based testing: every hidden set incl. none/all, statement edits, range-proof replacement and transplant, integer-leaf perturbation of the serialised proof",
+         "All hidden sets for n <= 3 / 5; every statement component edited; coverage-balanced field edits over every kind of leaf; a panic counts as not verifying.", TC, "DESIGN.md §6 C15"),
+ "C16": ("property-based testing + attacker program: boundary grid of (interval, x) classes, out-of-range prover runs, other bounds/bases/modulus, leaf perturbation, transplant of sub-proofs onto foreign commitments (with arithmetic self-check)",
+         "Grid x in {a, a+1, mid, b-1, b, random} x width in {1, 2, 3, 2^k, 2^256-1, random} x a classes, plus generated cases; transplant targets incl. unknown openings.", TC + " Domain 0 <= a < b.", "DESIGN.md §6 C16"),
+ "C17": ("attacker programs over the serialised proofs (opening recomputation over (value, randomness) objects and over all leaf pairs, v recovery, dictionary attack with decoy) on generated honest proofs for every non-empty hidden set; planted-opening positive control",
+         "Every non-empty hidden set for n <= 3 / 5, issuance proofs (with/without trusted commitment) and signature proofs, high-entropy attributes.", TC + " Only the direct recomputation attacks named by the property are decided.", "DESIGN.md §6 C17"),
+ "C18": ("property-based testing with independent number-theoretic oracles (own Miller-Rabin, Jacobi, gcd) over freshly generated keys, bases, commitment keys (own modulus via hook H2), codecs and random helpers",
+         "6 (quick) / 40 (thorough) generate()d CL1024 keys, fixture-prime keys for all three suites, own-modulus commitment keys, hundreds of random-helper cases.", TC + " Primality is probabilistic on both sides.", "DESIGN.md §6 C18"),
+ "C19": ("attacker program over the serialised proofs: all response/challenge and response/response quotients against the prover's secrets, with challenges recomputed and validated against the verification equation; public inverse map for range-proof square roots; under-blinding positive control",
+         "Every non-empty hidden set for n <= 3 / 5 and generated cases; ~10^5 quotients judged per quick run.", TC + " Internal commitment randomness unknown to the harness is judged only through known secrets.", "DESIGN.md §6 C19"),
+})
 NOT_YET = {}
 ALL = ["C%02d" % i for i in range(1, 20)]
 
